@@ -452,16 +452,50 @@ func (a Float) M__complex__() (Object, error) {
 }
 
 func (a Float) M__round__(digitsObj Object) (Object, error) {
-	digits := 0
-	if digitsObj != None {
-		var err error
-		digits, err = MakeGoInt(digitsObj)
+	x := float64(a)
+	if digitsObj == None {
+		// round(x) returns the nearest int, ties going to the even one
+		return Float(math.RoundToEven(x)).M__int__()
+	}
+	digits, err := MakeGoInt(digitsObj)
+	if err != nil {
+		return nil, err
+	}
+	if math.IsNaN(x) || math.IsInf(x, 0) || x == 0 {
+		return a, nil
+	}
+	// round(x, digits) rounds the exact decimal value of x half to
+	// even and returns the float nearest to that.
+	if digits >= 0 {
+		if digits > 323 {
+			// finer than the spacing of any two floats
+			return a, nil
+		}
+		// formatting with a precision rounds the exact value half to even
+		r, err := strconv.ParseFloat(strconv.FormatFloat(x, 'f', digits, 64), 64)
 		if err != nil {
 			return nil, err
 		}
+		return Float(r), nil
 	}
-	scale := Float(math.Pow(10, float64(digits)))
-	return scale * Float(math.Floor(float64(a)/float64(scale))), nil
+	if digits < -308 {
+		// 10**-digits is more than twice the largest float
+		return Float(math.Copysign(0, x)), nil
+	}
+	// |x| = q * 10**-digits + rem exactly
+	scale := new(big.Int).Exp(big.NewInt(10), big.NewInt(int64(-digits)), nil)
+	exact := new(big.Rat).SetFloat64(math.Abs(x))
+	den := new(big.Int).Mul(exact.Denom(), scale)
+	q, rem := new(big.Int).QuoRem(exact.Num(), den, new(big.Int))
+	rem.Lsh(rem, 1)
+	if c := rem.Cmp(den); c > 0 || (c == 0 && q.Bit(0) != 0) {
+		q.Add(q, big.NewInt(1))
+	}
+	r, err := (*BigInt)(q.Mul(q, scale)).Float()
+	if err != nil {
+		return nil, ExceptionNewf(OverflowError, "rounded value too large to represent")
+	}
+	return Float(math.Copysign(float64(r), x)), nil
 }
 
 // Rich comparison
